@@ -46,7 +46,7 @@ class C12(Check):
     comp = 'Callback'
     extracted = ['coq/Callback/model.mli', 'coq/Callback/model.ml', 'ocaml/zconv.ml', 'ocaml/callback_driver.ml']
     harness_sources = ['harness/callback.cpp']
-    per_case_timeout = 10
+    per_case_timeout = 3       # a case runs in milliseconds; a hanging emission costs this much
     technique = ('machine-checked proof in Coq about a hand-written Gallina model; model tied to the code by an '
                  'extracted-model vs implementation correspondence check')
     level_text = ('Coq theorems (26, closed under the global context) about the Gallina model of Callback (slot lists with '
@@ -113,10 +113,10 @@ class C12(Check):
                   'the property text and is modelled as a no-op (exercised by the edge stream); a guard `if(it2 == end()) return;` '
                   'would remove the reliance on that Map internal. The nine emit/connect/disconnect templates: all are executed '
                   '(arities 0..8) and textually tied to one template by the translator; the argument types used are int and long by '
-                  'value only (no references, no class-type arguments with copy constructors). The harness classes are not '
-                  'polymorphic (the library calls the slot through a pointer of the EMITTER\'s class type cast from void*, which '
-                  'UBSan\'s vptr check would flag for polymorphic client classes independently of this property); hence no virtual '
-                  'slot is driven (member pointers to virtual functions only reach MemberFuncPtr through the textual tie). '
+                  'value only (no references, no class-type arguments with copy constructors). (The library calls the slot through a pointer of the EMITTER\'s class type cast from void*, which '
+                  'UBSan\'s vptr check would flag for polymorphic EMITTER classes independently of this property; the harness emitter '
+                  'classes are not polymorphic, the listener classes are: slot 3 of every arity is a virtual member function, whose '
+                  'member pointer holds a vtable offset). '
                   'Bounds of the generated programs: <= 3 emitters / listeners, <= 3 signals per emitter, nesting depth <= 4, '
                   '<= 200 slot invocations per program; a case whose tree of choices among identical connections exceeds 96 runs '
                   'and matches no explored leaf is not judged (none occurs in the streams).')
@@ -160,6 +160,34 @@ class C12(Check):
             raise TieBroken('%d of the hand-copied templates in Callback.hpp differ from the template CallbackModel.v mirrors: %s'
                             % (len(diffs), ' ;; '.join(m for (_, _, m) in diffs[:4])))
         return [summary]
+
+    crash_units = 0            # harness restarts of this run (a watchdog timeout counts 15)
+
+    def run_impl(self, cases, tag='impl'):
+        """as Check.run_impl, in pieces of 100 cases: a stream is abandoned after ~150 harness crashes and the whole run after
+        ~900 (a watchdog timeout counts as 15), the cases not run are marked and dropped - a tree on which every case
+        crashes or hangs costs minutes, not hours; sanitizer reports are not symbolised (the kind is read from the summary)"""
+        rundir = os.path.join(BUILD, self.id, 'run')
+        env = {'ASAN_OPTIONS': 'detect_leaks=0:abort_on_error=0:allocator_may_return_null=1:max_allocation_size_mb=2048:symbolize=0'}
+        if tag.startswith('shr'):
+            return run_exe_on_cases(self.exes['impl'], cases, rundir, tag, is_impl=True, per_case_timeout=self.per_case_timeout, env=env)
+        res, crashes, here = [], {}, 0
+        for i in range(0, len(cases), 100):
+            chunk = cases[i:i + 100]
+            if here >= 150 or self.crash_units >= 900:
+                res += [['! notrun'] for _ in chunk]
+                continue
+            r, c = run_exe_on_cases(self.exes['impl'], chunk, rundir, tag, is_impl=True, per_case_timeout=self.per_case_timeout, env=env)
+            res += r
+            for k, v in c.items():
+                crashes[i + k] = v
+            w = sum(15 if v[0] == 'timeout' else 1 for v in c.values())
+            here += w
+            self.crash_units += w
+        return res, crashes
+
+    def shrink(self, case, pred, budget=400):
+        return Check.shrink(self, case, pred, budget=min(budget, 100))
 
     def judge(self, cases, impl_obs, spec_obs):
         """The reference object fixes everything except WHICH of several identical connections a disconnect cancels (the
@@ -334,7 +362,7 @@ class C12(Check):
     def random_case(self, rng):
         ne, nl = rng.choice([2, 2, 3]), rng.choice([2, 3, 3])
         nsg = rng.choice([1, 1, 2])
-        nslot = rng.choice([2, 3])
+        nslot = rng.choice([2, 3, 4])       # slot 3 is a virtual member function in the harness
         maxd = rng.choice([2, 3, 3, 4])
         c = ['@%d %d %d %d' % (ne, nl, nsg, maxd)]
         emits_left = 3 if maxd >= 4 else 4
